@@ -304,6 +304,29 @@ def root(r, k):
     return R(n=s, d=())
 
 
+def csqrt(z):
+    """Principal square root of a complex value a + ib as two definitional real symbols (u, v):
+    u^2 - v^2 = a, 2uv = b, u >= 0 (and v >= 0 on the negative real axis).  A solution exists for every (a, b), so the
+    axioms cannot make a path infeasible; signed zeros are not modelled."""
+    c = _axstore(_ctx.current())
+    ta, tb = as_term(z.re), as_term(z.im)
+    key = ("csqrt", ta.get_id(), tb.get_id())
+    if key in c._uf_apps:
+        u, v = c._uf_apps[key]
+        return C(R(n=u, d=()), R(n=v, d=()))
+    u = z3.Real(c.fresh_name("csr"))
+    v = z3.Real(c.fresh_name("csi"))
+    c._keep.extend([ta, tb, u, v])
+    ax = z3.And(u * u - v * v == ta, 2 * u * v == tb, u >= 0, z3.Implies(u == 0, v >= 0))
+    _add_axiom(c, key, ax, trigger=[u, v])
+    c._uf_apps[key] = (u, v)
+    if not hasattr(c, "_csqrt_defs"):
+        c._csqrt_defs = {}
+    c._csqrt_defs[u.get_id()] = (ta, tb, 0, u, v)
+    c._csqrt_defs[v.get_id()] = (ta, tb, 1, u, v)
+    return C(R(n=u, d=()), R(n=v, d=()))
+
+
 def sqrt(r):
     if isinstance(r, C):
         return r.sqrt()
